@@ -335,7 +335,11 @@ fn value_range(input: Input<'_>) -> ParserResult<'_, SubtypeElements> {
 fn size_constraint(input: Input<'_>) -> ParserResult<'_, SubtypeElements> {
     opt_delimited(
         skip_ws_and_comments(char(LEFT_PARENTHESIS)),
-        skip_ws_and_comments(into(preceded(tag(SIZE), constraint))),
+        // SIZE is followed by a subtype constraint; a table or contents constraint is a syntax error
+        skip_ws_and_comments(map_res(preceded(tag(SIZE), constraint), |c| match c {
+            Constraint::Subtype(set) => Ok(SubtypeElements::SizeConstraint(Box::new(set.set))),
+            _ => Err(MiscError("Expected a subtype constraint after SIZE.")),
+        })),
         skip_ws_and_comments(char(RIGHT_PARENTHESIS)),
     )
     .parse(input)
